@@ -249,6 +249,22 @@ def zero_jerk(sess):
              specs.t3_clear_a0(rate, accel, zero) == specs.lt_clear_a0(rate, accel))
 
 
+
+def check_default_accum(sess, module, qualname, param='accum', want='clear'):
+    """a call that omits the start accumulator is the call with the parameter's default: the default must be the text "clear"
+    (the clear-rule paths are verified above for an explicit "clear")"""
+    import ast
+    from pyvc import front
+    fn = front.load(module).func(qualname)
+    names = [a.arg for a in fn.args.args]
+    ok = False
+    if param in names:
+        j = names.index(param) - (len(names) - len(fn.args.defaults))
+        if j >= 0:
+            d = fn.args.defaults[j]
+            ok = isinstance(d, ast.Constant) and d.value == want
+    sess.add(f'{qualname}/default-of-{param}-is-"{want}"', f'{module}.{qualname}', 'ensures', [], z3.BoolVal(bool(ok)))
+
 def build(sess):
     sess.level = 'proof'
     sess.trust(
@@ -265,6 +281,7 @@ def build(sess):
     lemmas(sess)
     check_t3(sess, 'int')
     check_t3(sess, 'clear')
+    check_default_accum(sess, MOD, 'move_dist_t3')
     check_rate(sess)
     domain_lemma(sess)
     zero_jerk(sess)
